@@ -70,3 +70,9 @@ for n in names:
             shutil.rmtree(target, ignore_errors=True)
 for r in rows:
     print(" | ".join(r))
+# remember the latest verdict per seeded change (development record, summarised in DESIGN.md §9)
+res_file = ROOT / "seeded" / "RESULTS.json"
+res = json.loads(res_file.read_text()) if res_file.exists() else {}
+for n, prop, b, dm, kind in rows:
+    res[n] = {"property_checked": prop, "baseline": b or res.get(n, {}).get("baseline", ""), "demo": dm, "check": kind}
+res_file.write_text(json.dumps(res, indent=1, sort_keys=True) + "\n")
